@@ -270,6 +270,33 @@ def check_real_wfs(ck):
                         ck.violation("pgradient_not_derivative", S_PG, {"wf": name, "parameter": k, "index": list(idx), "direction": str(d)},
                                      expected=np.asarray(fd).tolist().__repr__(), got=np.asarray(an).tolist().__repr__(),
                                      oracle="Richardson-extrapolated central difference of ln Psi under recompute (h=2e-4, 1e-4)")
+            # one random direction over ALL entries of the parameter: an error in any entry (e.g. one spin channel of a coefficient tensor) shows
+            # with probability one, whatever entries the random indices above happened to pick (added after a seeded change that only affected
+            # the down-down channel of the three-body coefficients for unequal spin counts)
+            v = ck.rng.normal(size=p0.shape)
+            v = v / max(1e-300, float(np.max(np.abs(v))))
+            for d in [1.0] + ([1j] if p0.dtype == complex else []):
+                h0 = 2e-4 * max(1.0, float(np.max(np.abs(p0))))
+                est = []
+                for h in (h0, h0 / 2):
+                    vals = []
+                    for sgn in (+1, -1):
+                        wf.parameters[k] = (p0 + sgn * h * d * v).astype(p0.dtype)
+                        vals.append(lnpsi(wf, cfg))
+                    (sp, lp), (sm, lm) = vals
+                    est.append(np.log((sp / sm) * np.exp(lp - lm)) / (2 * h))
+                wf.parameters[k] = p0.copy()
+                fd = (4 * est[1] - est[0]) / 3.0
+                an = np.tensordot(pg[k], v, axes=(list(range(1, pg[k].ndim)), list(range(v.ndim)))) * d
+                if wf.dtype == float:
+                    fd = fd.real
+                err = np.max(np.abs(fd - an) / np.maximum(1.0, np.abs(an)))
+                ck.case(("pgdir", name, k, complex(d).imag), nontrivial=bool(np.any(np.abs(an) > 1e-8)))
+                classes[name] = max(classes.get(name, 0.0), float(err))
+                if not np.isfinite(err) or err > 2e-5:
+                    ck.violation("pgradient_not_derivative", S_PG, {"wf": name, "parameter": k, "random_direction_over_all_entries": np.asarray(v).tolist(), "direction": str(d)},
+                                 expected=np.asarray(fd).tolist().__repr__(), got=np.asarray(an).tolist().__repr__(),
+                                 oracle="Richardson-extrapolated central difference of ln Psi along a random direction in the whole parameter array vs sum(pgradient * direction)")
         wf.recompute(cfg)
     ck.stats["pgradient_max_rel_err_by_wf"] = classes
     # --- cusp / normalisation freezes of generate_jastrow
